@@ -95,6 +95,8 @@ class Source:
                 n_t = 0
                 for _round in range(8 if localnames.table().get(rel) else 0):
                     k_t = normalize.inline_new_temps(self.tree, localnames.table().get(rel, {}))
+                    k_t += normalize.rename_dead_aliases(self.tree, localnames.table().get(rel, {}))
+                    k_t += normalize.inline_comprehension_temps(self.tree, localnames.table().get(rel, {}))
                     n_t += k_t
                     if not k_t:
                         break
@@ -277,6 +279,10 @@ class Ctx:
         s = Source(rel, text)
         self._cache[rel] = s
         self.files.add(rel)
+        if getattr(self, "sweeping", False):
+            # read by a package-wide sweep of ONE rule (thorough tier), not by the property's rules: the lints that go with "every file
+            # the property reads" (R0) are not this file's business
+            self.swept = getattr(self, "swept", set()) | {rel}
         return s
 
     def all_sources(self, exts=(".py", ".pyx", ".pxd")):
@@ -421,7 +427,7 @@ def run_property(prop, tier, overrides=None, repo=None):
     mod.run(ctx)
     # every Cython source the property read: its C declarations still hold the values the reference declarations held
     from . import lints as _lints
-    for rel_ in sorted(ctx.files):
+    for rel_ in sorted(ctx.files - getattr(ctx, "swept", set())):
         if rel_.endswith(".pyx") and rel_ in ctx._cache:
             _lints.declared_types_keep_values(ctx, rel_)
         if rel_ in ctx._cache:
